@@ -23,6 +23,7 @@ sys.path.insert(0, os.path.join(os.path.dirname(os.path.abspath(__file__)), ".."
 LEVEL = "model_checking"
 WORKER = "fn_rename.py"
 TRACE = "Trace_Rename"
+PAR = int(os.environ.get("VERIF_PAR", "16"))      # worker processes / JVMs at a time
 
 
 # ---------------------------------------------------------------------------------------------
@@ -161,7 +162,7 @@ def _cut(inp, keep_formulas):
   return out
 
 
-def _what(case, clause, ft, fv):
+def _what(case, clause, ft, fv, fr=()):
   inp, o = case["inp"], case["out"]
   head = "%s of %s to %r" % (inp["path"], inp["target"], inp["req"])
   if o["fail"]:
@@ -183,6 +184,10 @@ def _what(case, clause, ft, fv):
     for cid in fv[:2]:
       bits.append("%s (%r): cells %s became %s" % (cid, o["texts1"].get(cid), json.dumps(o["vals0"].get(cid))[:80],
                                                      json.dumps(o["vals1"].get(cid))[:120]))
+    for cid in [c for c in fr if c not in fv][:2]:
+      bits.append("%s (%r): cells %s are %s after a from-scratch recalculation of the renamed document"
+                  % (cid, o["texts1"].get(cid), json.dumps(o["vals0"].get(cid))[:80],
+                     json.dumps(o["vals1r"].get(cid))[:120]))
     return head + "; " + "; ".join(bits)
   if clause == "C16.undo":
     diff = [k for k in o["texts0"] if o["texts2"].get(k) != o["texts0"][k]] + \
@@ -204,21 +209,21 @@ def load_cases(path):
 
 def judge(files, workdir):
   """Run Trace_Rename over the case files. Returns (violations, n_cases, wall)."""
-  _res, wall = tlc.validate_shards(TRACE, files, workdir, parallel=16, xmx="2g")
+  _res, wall = tlc.validate_shards(TRACE, files, workdir, parallel=PAR, xmx="2g")
   viol, n = [], 0
   for f in files:
     cases = load_cases(f)
     n += len(cases)
     for b in json.load(open(f + ".verdict.json")):
       case = cases[b["i"] - 1]
-      ft, fv = sorted(b.get("ft", [])), sorted(b.get("fv", []))
+      ft, fv, fr = sorted(b.get("ft", [])), sorted(b.get("fv", [])), sorted(b.get("fr", []))
       for clause in sorted(b["c"]):
         if clause.startswith("SPEC."):
           raise tlc.MachineryError("%s: the machinery disagrees with itself on %s / %s"
                                    % (clause, json.dumps({k: v for k, v in case["inp"].items() if k != "sch"}),
                                       json.dumps(case["out"])[:1500]))
-        viol.append({"clause": clause, "ft": ft, "fv": fv, "case": case,
-                     "what": _what(case, clause, ft, fv)})
+        viol.append({"clause": clause, "ft": ft, "fv": fv, "fr": fr, "case": case,
+                     "what": _what(case, clause, ft, fv, fr)})
   return viol, n, wall
 
 
@@ -238,7 +243,7 @@ def _pack(cases, path):
 def _group(v):
   inp = v["case"]["inp"]
   return (v["clause"], inp["target"], inp["path"] if v["clause"] in ("C16.applied", "C16.raised", "C16.undo") else "",
-          tuple(v["ft"][:1]), tuple(v["fv"][:1]))
+          tuple(v["ft"][:1]), tuple((v["fv"] or v["fr"])[:1]))
 
 
 def minimise(viol, workdir, limit=24):
@@ -250,7 +255,11 @@ def minimise(viol, workdir, limit=24):
     if g in seen or len(todo) >= limit:
       continue
     seen.add(g)
-    keep = (v["ft"][:1] or v["fv"][:1]) if v["clause"] in ("C16.text", "C16.values") else []
+    keep = []
+    if v["clause"] == "C16.text":
+      keep = v["ft"][:1]
+    elif v["clause"] == "C16.values":
+      keep = (v["fv"] or v["fr"])[:1]
     keep = [c for c in keep if c in v["case"]["inp"]["sch"]["cols"]]
     small = _cut(v["case"]["inp"], keep)
     if len(small["sch"]["cols"]) < len(v["case"]["inp"]["sch"]["cols"]):
@@ -345,16 +354,16 @@ def _items(space):
 
 def run(ctx):
   cfg = "MC_Rename_%s.cfg" % ctx.tier
-  space, model = fnspec.enumerate_inputs("MC_Rename", cfg, ctx.workdir)
+  space, model = fnspec.enumerate_inputs("MC_Rename", cfg, ctx.workdir, workers=PAR)
   items = _items(space)
   nform = [sum(1 for c in d["cols"].values() if c["type"] == "Any") for d in space["docs"]]
   ctx.log("TLC enumerated %d rename steps over a document with %s formula columns (%d distinct states) in %.1fs"
           % (len(items), nform, model["distinct"], model.get("wall", 0)))
-  extra = random_inputs(ctx.seed, 40 if ctx.quick else 400)
+  extra = random_inputs(ctx.seed, 30 if ctx.quick else 480)
   todo = items + extra
   random.Random(16).shuffle(todo)
   t0 = time.time()
-  files = fnspec.run_cases(WORKER, todo, ctx.workdir, nshards=16)
+  files = fnspec.run_cases(WORKER, todo, ctx.workdir, nshards=PAR)
   ctx.log("the real engine ran %d rename steps in %.1fs" % (len(todo), time.time() - t0))
   viol, n, wall = judge(files, ctx.workdir)
   ctx.log("TLC judged %d recorded steps in %.1fs" % (n, wall))
@@ -381,8 +390,8 @@ def run(ctx):
                     "identities to metadata row ids and reads names, formula texts and cells back through "
                     "fetch_table; its renderer is checked against Rename!Toks on every case (SPEC.render)",
                     "formula values are compared as recorded before/after the step (no from-scratch "
-                    "recalculation); a step that raises ValueError and leaves the document unchanged counts "
-                    "as a rejection",
+                    "recalculation); a step that raises and leaves the whole document unchanged counts as a "
+                    "rejection (classes counted in `rejections`)",
                     "formulas whose value is a record are excluded (a record is shown with its table's name)"],
     "violations": viol,
     "extra": stats,
@@ -391,9 +400,9 @@ def run(ctx):
 
 def _stats(files):
   st = {"steps": 0, "steps_that_rewrote_a_formula": 0, "formula_texts_judged": 0, "formula_texts_rewritten": 0,
-        "steps_rejected": 0, "steps_without_rename": 0, "by_path": {}, "new_names": {}}
+        "steps_rejected": 0, "rejections": {}, "steps_without_rename": 0, "by_path": {}, "new_names": {}}
   for f in files:
-    for c in json.load(open(f)):
+    for c in load_cases(f):
       o, inp = c["out"], c["inp"]
       st["steps"] += 1
       st["by_path"][inp["path"]] = st["by_path"].get(inp["path"], 0) + 1
@@ -401,6 +410,7 @@ def _stats(files):
         continue
       if o["exc"]:
         st["steps_rejected"] += 1
+        st["rejections"][o["exc"]] = st["rejections"].get(o["exc"], 0) + 1
         continue
       nform = sum(1 for col in inp["sch"]["cols"].values() if col["type"] == "Any")
       st["formula_texts_judged"] += nform
@@ -424,8 +434,346 @@ def replay(ctx, data):
 # input generation beyond the TLC bound (enumeration only; TLC judges, and rejects inputs outside
 # the family with SPEC.wf)
 # ---------------------------------------------------------------------------------------------
-def random_inputs(seed, n):
-  return []
+COL_NAMES = ["a", "b", "k", "v", "w", "x", "n", "amount", "Total", "name2", "r", "q", "p", "cc", "A_b", "val",
+             "key", "item", "Cost", "zz9", "e", "y", "z"]
+TABLE_NAMES = ["T1", "T2", "Orders", "People", "Items", "Tab", "X", "Data", "Vv"]
+COL_REQS = ["sort_by", "zz", "my col!", "class", "", "1st", "id", "ID", "a b", "x-y", "_lead", "all", "lookupRecords", "rec",
+            "PREVIOUS", "lookupOne", "find", "len", "sum", "str", "T1", "T2", "None", "True", "def", "v", "a", "A",
+            "k", "K", "__", "a__b", "a long column label, with words", "N", "order_by", "group_by", "x", "e", "$a",
+            "a.b", "return", "table", "Total", "amount"]
+TABLE_REQS = ["Zz", "zz", "my tab!", "none", "true", "", "2x", "Len", "Str", "Rec", "Table1", "T1", "T2", "t1", "v",
+              "class", "lookup", "Orders", "orders", "a b c", "X", "x", "All", "UserTable", "Record", "Table"]
+FUNC_TABLE_REQS = ["PREVIOUS", "NEXT", "RANK", "previous", "SUM"]
+LOCALS = ["x", "y", "e", "v", "k", "z"]
+COL_PATHS = ["RenameColumn", "colId", "label", "label_untied", "retie"]
+TABLE_PATHS = ["RenameTable", "tableId", "title"]
 
 
-MATCHERS = {}
+class _Gen(object):
+  """Random documents of the family of Rename.tla (typed generation: see Rename!Ty)."""
+
+  def __init__(self, rnd):
+    self.rnd = rnd
+
+  def document(self):
+    rnd = self.rnd
+    ntab = rnd.choice((2, 2, 3))
+    tnames = []
+    for n in rnd.sample(TABLE_NAMES, len(TABLE_NAMES)):
+      if n.upper() not in [t.upper() for t in tnames]:
+        tnames.append(n)
+    self.tables = [{"id": "T%d" % (i + 1), "name": tnames[i], "nrows": rnd.choice((2, 3, 4))} for i in range(ntab)]
+    self.cols = {}
+    self.by_tab = {t["id"]: [] for t in self.tables}
+    for t in self.tables:
+      names = rnd.sample(COL_NAMES, len(COL_NAMES))
+      used = set()
+      nint, nref = rnd.choice((2, 3, 4)), rnd.choice((0, 1, 1, 2))
+      for j in range(nint + nref):
+        name = next(x for x in names if x.upper() not in used)
+        used.add(name.upper())
+        cid = "%s.c%d" % (t["id"], j + 1)
+        if j < nint:
+          col = {"tab": t["id"], "name": name, "type": "Int", "to": "",
+                 "data": [rnd.randint(1, 3) for _ in range(t["nrows"])]}
+        else:
+          to = rnd.choice(self.tables)
+          col = {"tab": t["id"], "name": name, "type": "Ref", "to": to["id"],
+                 "data": [rnd.randint(0 if rnd.random() < 0.2 else 1, to["nrows"]) for _ in range(t["nrows"])]}
+        col.update({"body": ["none"], "cmt": "", "ord": 0})
+        self.cols[cid] = col
+        self.by_tab[t["id"]].append(cid)
+      self.used_names = getattr(self, "used_names", {})
+      self.used_names[t["id"]] = used
+    nform = rnd.randint(6, 12)
+    self.fcols = {t["id"]: [] for t in self.tables}
+    for j in range(nform):
+      host = rnd.choice(self.tables)["id"]
+      body = self.formula(host)
+      name = "F%d" % (j + 1)
+      cid = "%s.F%d" % (host, j + 1)
+      words = [c["name"] for c in self.cols.values()] + [t["name"] for t in self.tables] + \
+              ["$" + self.cols[self.by_tab[host][0]]["name"], "rec.", "order_by=", "lookupRecords("]
+      cmt = " ".join(rnd.sample(words, rnd.randint(1, 3))) if rnd.random() < 0.25 else ""
+      self.cols[cid] = {"tab": host, "name": name, "type": "Any", "to": "", "data": [], "body": body, "cmt": cmt,
+                        "ord": 0}
+      self.fcols[host].append(cid)
+    for j, c in enumerate(self.cols.values()):
+      c["ord"] = j + 1
+    return {"tables": self.tables, "cols": self.cols}
+
+  # -- typed pieces --------------------------------------------------------------------------
+  def ints(self, tab):
+    return [c for c in self.by_tab[tab] if self.cols[c]["type"] == "Int"]
+
+  def refs(self, tab):
+    return [c for c in self.by_tab[tab] if self.cols[c]["type"] == "Ref"]
+
+  def chain(self, tab, want, maxlen=4):
+    """Column identities from `tab`: refs, then an Int column (want 'int') or ending at a Ref ('rec')."""
+    rnd, out = self.rnd, []
+    while len(out) < maxlen - 1 and self.refs(tab) and rnd.random() < 0.5:
+      c = rnd.choice(self.refs(tab))
+      out.append(c)
+      tab = self.cols[c]["to"]
+    if want == "int":
+      out.append(rnd.choice(self.ints(tab)))
+      return out, ""
+    if want == "rec" and not out and self.refs(tab):
+      c = rnd.choice(self.refs(tab))
+      out.append(c)
+      tab = self.cols[c]["to"]
+    return out, tab
+
+  def int_expr(self, host, scope):
+    rnd = self.rnd
+    x = rnd.random()
+    if scope and x < 0.5:
+      var = rnd.choice(sorted(scope))
+      return ["var", var, self.chain(scope[var], "int")[0]]
+    if x < 0.6:
+      return ["lit", str(rnd.randint(1, 3))]
+    ch = self.chain(host, "int")[0]
+    if len(ch) == 1:
+      return [rnd.choice(("col", "rec")), ch[0]]
+    return [rnd.choice(("chain", "chain", "recchain")), ch]
+
+  def ob(self, tab, neg=True, must=False):
+    rnd = self.rnd
+    if not must and rnd.random() < 0.4:
+      return []
+    one = lambda: ["s", rnd.choice(('"', "'")), rnd.choice(("", "-")) if neg else "", rnd.choice(self.ints(tab))]  # noqa: E731
+    if rnd.random() < 0.55:
+      return one()
+    return ["t", [one() for _ in range(rnd.randint(1, 3))]]
+
+  def lookup(self, host, scope, want):
+    rnd = self.rnd
+    tab = rnd.choice(self.tables)["id"]
+    keys = rnd.sample(self.ints(tab), min(len(self.ints(tab)), rnd.choice((0, 1, 1, 1, 2))))
+    kws = [[k, self.int_expr(host, scope)] for k in keys]
+    if self.refs(tab) and rnd.random() < 0.15:
+      kws.append([rnd.choice(self.refs(tab)), ["lit", "$id"]])
+    fn = "lookupRecords" if want == "set" else rnd.choice(("lookupRecords", "lookupOne"))
+    if want == "int":
+      attr, end = self.chain(tab, "int", 3)[0], ""
+    elif want == "set":
+      attr, end = [], tab
+    else:
+      attr, end = self.chain(tab, "rec0", 2)
+    return ["lookup", fn, tab, kws, self.ob(tab), attr, rnd.choice(("", "", "", " "))], end
+
+  def recordset(self, host, scope):
+    if self.rnd.random() < 0.6:
+      return self.lookup(host, scope, "set")
+    tab = self.rnd.choice(self.tables)["id"]
+    return ["all", tab, []], tab
+
+  def pn(self, host, want):
+    rnd = self.rnd
+    fn = rnd.choice(("PREVIOUS", "NEXT", "RANK")) if want == "int" else rnd.choice(("PREVIOUS", "NEXT"))
+    gb = self.ob(host, neg=False)
+    ob = self.ob(host, must=True)
+    if fn == "RANK":
+      return ["pn", fn, gb, ob, []], ""
+    if want == "int":
+      return ["pn", fn, gb, ob, self.chain(host, "int", 3)[0]], ""
+    attr, end = self.chain(host, "rec0", 2)
+    return ["pn", fn, gb, ob, attr], end
+
+  def comp(self, host, scope, depth):
+    rnd = self.rnd
+    src, tab = self.recordset(host, scope)
+    x = rnd.choice([v for v in LOCALS if v not in scope] or LOCALS)
+    inner = dict(scope)
+    inner[x] = tab
+    open_ = rnd.choice(("[", "[", "{", "sum(", "list(", "sorted("))
+    if open_ in ("[", "list(") and depth > 0 and rnd.random() < 0.4:
+      elt = self.scalar(host, inner, depth - 1)
+    else:
+      elt = ["var", x, self.chain(tab, "int", 3)[0]]
+    return ["comp", open_, x, elt, src]
+
+  def scalar(self, host, scope, depth=2):
+    rnd = self.rnd
+    x = rnd.random()
+    if x < 0.22 or depth <= 0:
+      return self.int_expr(host, scope)
+    if x < 0.40:
+      return self.lookup(host, scope, "int")[0]
+    if x < 0.47:
+      tab = rnd.choice(self.tables)["id"]
+      return ["all", tab, self.chain(tab, "int", 3)[0]]
+    if x < 0.53:
+      return ["call", "len", self.recordset(host, scope)[0]]
+    if x < 0.68:
+      return self.comp(host, scope, depth)
+    if x < 0.82:
+      return self.pn(host, "int")[0]
+    if x < 0.90:
+      return ["list", [self.scalar(host, scope, depth - 1) for _ in range(rnd.randint(1, 3))]]
+    if x < 0.93:
+      return ["call", rnd.choice(("str", "bool")), self.scalar(host, scope, depth - 1)]
+    if x < 0.96:
+      return ["fstr", self.int_expr(host, scope)]
+    if x < 0.98 and self.fcols[host]:
+      return ["list", [[rnd.choice(("col", "rec")), rnd.choice(self.fcols[host])]]]
+    words = [c["name"] for c in self.cols.values()] + [t["name"] for t in self.tables]
+    return ["list", [["str", rnd.choice(words), rnd.choice(('"', "'"))], self.int_expr(host, scope)]]
+
+  def record(self, host):
+    rnd = self.rnd
+    x = rnd.random()
+    if x < 0.35 and self.refs(host):
+      ch, end = self.chain(host, "rec", 3)
+      return [rnd.choice(("chain", "recchain")), ch], end
+    if x < 0.8:
+      return self.lookup(host, {}, rnd.choice(("rec", "set")))
+    return self.pn(host, "rec")
+
+  def formula(self, host):
+    rnd = self.rnd
+    if rnd.random() < 0.15:
+      e1, tab = self.record(host)
+      x = rnd.choice(LOCALS)
+      return ["let", x, e1, self.scalar(host, {x: tab}, 1)]
+    return self.scalar(host, {}, 2)
+
+
+def random_inputs(seed, n, steps_per_doc=6):
+  rnd = random.Random("C16-%d" % seed)
+  out = []
+  while len(out) < n:
+    g = _Gen(rnd)
+    sch = g.document()
+    tabs = [t["id"] for t in sch["tables"]]
+    data_cols = [c for c, col in sch["cols"].items() if col["type"] != "Any"]
+    form_cols = [c for c, col in sch["cols"].items() if col["type"] == "Any"]
+    for _ in range(steps_per_doc):
+      x = rnd.random()
+      if x < 0.25:
+        target = rnd.choice(tabs)
+        path = rnd.choice(TABLE_PATHS)
+        own = [t["name"] for t in sch["tables"]]
+        req = rnd.choice(TABLE_REQS + own + [o.lower() for o in own] + (FUNC_TABLE_REQS if rnd.random() < 0.3 else []))
+      else:
+        target = rnd.choice(data_cols if x < 0.9 else form_cols)
+        path = rnd.choice(COL_PATHS)
+        tab = sch["cols"][target]["tab"]
+        own = [c["name"] for c in sch["cols"].values() if c["tab"] == tab]
+        req = rnd.choice(COL_REQS + own + [o.upper() for o in own] + [sch["cols"][target]["name"] * 2])
+      out.append({"sch": sch, "target": target, "path": path, "req": req})
+  return out[:n]
+
+
+# ---------------------------------------------------------------------------------------------
+# Matchers for defects of the unchanged tree
+# ---------------------------------------------------------------------------------------------
+def _calls(e, acc=None):
+  """Names of the functions a tree calls (PREVIOUS / NEXT / RANK, len, sum, ...)."""
+  acc = set() if acc is None else acc
+  if not isinstance(e, list) or not e:
+    return acc
+  k = e[0]
+  if k == "pn":
+    acc.add(e[1])
+  elif k == "call":
+    acc.add(e[1])
+    _calls(e[2], acc)
+  elif k == "comp":
+    if e[1].endswith("("):
+      acc.add(e[1][:-1])
+    _calls(e[3], acc)
+    _calls(e[4], acc)
+  elif k == "fstr":
+    _calls(e[1], acc)
+  elif k == "list":
+    for x in e[1]:
+      _calls(x, acc)
+  elif k == "lookup":
+    for kw in e[3]:
+      _calls(kw[1], acc)
+  elif k == "let":
+    _calls(e[2], acc)
+    _calls(e[3], acc)
+  return acc
+
+
+def _failing_cols(v):
+  return sorted(set(v.get("fv") or []) | set(v.get("fr") or []))
+
+
+def _all_errors(o, cid, v):
+  cells = []
+  if cid in (v.get("fv") or []):
+    cells += o["vals1"].get(cid, ["x"])
+  if cid in (v.get("fr") or []):
+    cells += o["vals1r"].get(cid, ["x"])
+  return bool(cells) and all(t.startswith("E") for t in cells)
+
+
+def _m_table_named_like_function(v):
+  """A table renamed to the name of a function that formulas call (PREVIOUS, NEXT, RANK, ...) shadows
+  that function in the generated module: every formula that calls it evaluates to an error when it is
+  next calculated (at the latest at the next full recalculation).  Matched only if every column whose
+  cells differ holds errors and calls a function whose name is the table's new name."""
+  case = v["case"]
+  inp, o = case["inp"], case["out"]
+  if v.get("clause") != "C16.values" or not _failing_cols(v):
+    return False
+  if inp["target"] not in [t["id"] for t in inp["sch"]["tables"]]:
+    return False
+  new = o["names1"].get(inp["target"])
+  for cid in _failing_cols(v):
+    col = inp["sch"]["cols"].get(cid)
+    if not col or col["type"] != "Any" or new not in _calls(col["body"]) or not _all_errors(o, cid, v):
+      return False
+  return True
+
+
+def _kw_uses(e, target, acc=None):
+  """Does the tree use `target` as a keyword of a lookup, or in group_by of PREVIOUS/NEXT/RANK
+  (which looks the group up with the group-by columns as keywords)?"""
+  if not isinstance(e, list) or not e:
+    return False
+  k = e[0]
+  if k == "lookup":
+    return any(kw[0] == target or _kw_uses(kw[1], target) for kw in e[3])
+  if k == "pn":
+    return target in mentions(e[2])
+  if k == "call":
+    return _kw_uses(e[2], target)
+  if k == "fstr":
+    return _kw_uses(e[1], target)
+  if k == "list":
+    return any(_kw_uses(x, target) for x in e[1])
+  if k == "comp":
+    return _kw_uses(e[3], target) or _kw_uses(e[4], target)
+  if k == "let":
+    return _kw_uses(e[2], target) or _kw_uses(e[3], target)
+  return False
+
+
+def _m_column_named_like_lookup_keyword(v):
+  """A column renamed to `order_by` / `sort_by` (names that lookupRecords / lookupOne take as options):
+  `T.lookupRecords(col=x)` becomes `T.lookupRecords(sort_by=x)`, which is no longer a filter on the
+  column, and PREVIOUS/NEXT/RANK with that column in group_by pass it on as a keyword.  Matched only if
+  the new name is one of these, and every column whose cells differ holds errors and uses the renamed
+  column as a lookup keyword or in group_by."""
+  case = v["case"]
+  inp, o = case["inp"], case["out"]
+  if v.get("clause") != "C16.values" or not _failing_cols(v):
+    return False
+  if inp["target"] not in inp["sch"]["cols"] or o["names1"].get(inp["target"]) not in ("order_by", "sort_by"):
+    return False
+  for cid in _failing_cols(v):
+    col = inp["sch"]["cols"].get(cid)
+    if not col or col["type"] != "Any" or not _kw_uses(col["body"], inp["target"]) or not _all_errors(o, cid, v):
+      return False
+  return True
+
+
+MATCHERS = {
+  "c16_table_named_like_function": _m_table_named_like_function,
+  "c16_column_named_like_lookup_keyword": _m_column_named_like_lookup_keyword,
+}
